@@ -14,8 +14,14 @@
 //!
 //! Case format (replayable):
 //!   case <id> medium=<ip|eth|154>
-//!   f <dt_ms> <hex frame>
+//!   f <dt_ms> <hex frame>          deliver the frame, poll
+//!   l <dt_ms> <k> | j <dt_ms> <k>  leave / (re)join multicast group k (see `group`), poll
+//!   b <dt_ms> <n>                  device back-pressure: n tx tokens left (255 = unlimited), poll
 //!   end
+//!
+//! The target is a member of two IPv4 groups (not on IEEE 802.15.4) and one IPv6 group, so that IGMP / MLD
+//! queries (general, group-specific, v1/v2; hand-built seeds) drive the host side of
+//! iface/interface/multicast.rs: delayed reports, leaves, also while the device hands out no tx token.
 use smoltcp::iface::{Config, Interface, SocketHandle, SocketSet, SocketStorage};
 use smoltcp::phy::Medium;
 use smoltcp::socket::{dhcpv4, dns, icmp, raw, tcp, udp};
@@ -354,6 +360,48 @@ fn handmade_seeds(medium: Medium) -> Vec<Vec<u8>> {
             v.push(f);
         }
     }
+    // well-formed IGMP: general queries (v2 with several response times, v1), group-specific queries for
+    // the groups the target joined (and one it did not), a report and a leave of another host
+    {
+        let all = Ipv4Address::new(224, 0, 0, 1);
+        let mut msgs: Vec<(IgmpRepr, Ipv4Address)> = vec![];
+        for mrt in [1u64, 10, 100] {
+            msgs.push((
+                IgmpRepr::MembershipQuery { max_resp_time: Duration::from_millis(mrt * 100), group_addr: Ipv4Address::UNSPECIFIED, version: IgmpVersion::Version2 },
+                all,
+            ));
+        }
+        msgs.push((IgmpRepr::MembershipQuery { max_resp_time: Duration::from_millis(0), group_addr: Ipv4Address::UNSPECIFIED, version: IgmpVersion::Version1 }, all));
+        for g in [GROUP4_A, GROUP4_B, Ipv4Address::new(239, 9, 9, 9)] {
+            msgs.push((IgmpRepr::MembershipQuery { max_resp_time: Duration::from_millis(1000), group_addr: g, version: IgmpVersion::Version2 }, g));
+            msgs.push((IgmpRepr::MembershipQuery { max_resp_time: Duration::from_millis(0), group_addr: g, version: IgmpVersion::Version1 }, me4));
+        }
+        msgs.push((IgmpRepr::MembershipReport { group_addr: GROUP4_A, version: IgmpVersion::Version2 }, GROUP4_A));
+        msgs.push((IgmpRepr::LeaveGroup { group_addr: GROUP4_A }, Ipv4Address::new(224, 0, 0, 2)));
+        for (m, dst) in msgs {
+            let ip = Ipv4Repr { src_addr: srv, dst_addr: dst, next_header: IpProtocol::Igmp, payload_len: m.buffer_len(), hop_limit: 1 };
+            let mut buf = vec![0u8; 20 + m.buffer_len()];
+            ip.emit(&mut Ipv4Packet::new_unchecked(&mut buf[..]), &Default::default());
+            m.emit(&mut IgmpPacket::new_unchecked(&mut buf[20..]));
+            if let Some(f) = wrap_l2(medium, buf, false) {
+                v.push(f);
+            }
+        }
+    }
+    // MLD group-specific queries (joined group, foreign group), addressed to the group
+    {
+        let src = Ipv6Address::new(0xfe80, 0, 0, 0, 0, 0, 0, 2);
+        for (g, code) in [(GROUP6, 0u16), (GROUP6, 1000), (Ipv6Address::new(0xff02, 0, 0, 0, 0, 0, 0, 0x99), 10)] {
+            let mld = Icmpv6Repr::Mld(MldRepr::Query { max_resp_code: code, mcast_addr: g, s_flag: false, qrv: 2, qqic: 125, num_srcs: 0, data: &[] });
+            let ip = Ipv6Repr { src_addr: src, dst_addr: g, next_header: IpProtocol::Icmpv6, payload_len: mld.buffer_len(), hop_limit: 1 };
+            let mut buf = vec![0u8; 40 + mld.buffer_len()];
+            ip.emit(&mut Ipv6Packet::new_unchecked(&mut buf[..]));
+            mld.emit(&src, &g, &mut Icmpv6Packet::new_unchecked(&mut buf[40..]), &Default::default());
+            if let Some(f) = wrap_l2(medium, buf, true) {
+                v.push(f);
+            }
+        }
+    }
     // IPv6: hop-by-hop + routing + fragment headers in front of UDP; MLD query; RA with options
     {
         let src = Ipv6Address::new(0xfe80, 0, 0, 0, 0, 0, 0, 2);
@@ -562,9 +610,25 @@ fn medium_name(m: Medium) -> &'static str {
     }
 }
 
+const GROUP4_A: Ipv4Address = Ipv4Address::new(239, 1, 2, 3);
+const GROUP4_B: Ipv4Address = Ipv4Address::new(224, 0, 0, 251);
+const GROUP6: Ipv6Address = Ipv6Address::new(0xff02, 0, 0, 0, 0, 0, 0, 0xfb);
+
+/// multicast group number k of the `l` / `j` ops (IPv4 groups do not exist on IEEE 802.15.4)
+fn group(medium: Medium, k: usize) -> IpAddress {
+    match (medium, k % 3) {
+        (Medium::Ieee802154, _) | (_, 2) => IpAddress::Ipv6(GROUP6),
+        (_, 0) => IpAddress::Ipv4(GROUP4_A),
+        _ => IpAddress::Ipv4(GROUP4_B),
+    }
+}
+
 /// bring the target into a state with an established and a connecting TCP socket etc.
 fn warm_target(medium: Medium) -> Node {
     let mut a = mk_node(medium, 1, 11);
+    for k in 0..3 {
+        let _ = a.iface.join_multicast_group(group(medium, k));
+    }
     let mut p = mk_node(medium, 2, 22);
     let mut now = 0i64;
     for step in 0..40 {
@@ -595,12 +659,28 @@ fn warm_target(medium: Medium) -> Node {
 /// returns None if ok, Some((class, detail)) otherwise
 fn run_case(c: &Case) -> Option<(String, String)> {
     let medium = medium_of(c.get("medium").unwrap_or("ip"));
-    let frames: Vec<(i64, Vec<u8>)> = c
+    enum Op {
+        Frame(Vec<u8>),
+        Leave(usize),
+        Join(usize),
+        Budget(usize),
+    }
+    let frames: Vec<(i64, Op)> = c
         .ops
         .iter()
         .map(|o| {
             let t: Vec<&str> = o.split_whitespace().collect();
-            (t[1].parse().unwrap(), unhex(t[2]))
+            let dt: i64 = t[1].parse().unwrap();
+            let arg = t.get(2).copied().unwrap_or("");
+            (
+                dt,
+                match t[0] {
+                    "l" => Op::Leave(arg.parse().unwrap_or(0)),
+                    "j" => Op::Join(arg.parse().unwrap_or(0)),
+                    "b" => Op::Budget(arg.parse().unwrap_or(255)),
+                    _ => Op::Frame(unhex(arg)),
+                },
+            )
         })
         .collect();
     let cid = c.id.clone();
@@ -609,9 +689,18 @@ fn run_case(c: &Case) -> Option<(String, String)> {
         let r = std::panic::catch_unwind(std::panic::AssertUnwindSafe(|| {
             let mut a = warm_target(medium);
             let mut now: i64 = 1000;
-            for (k, (dt, f)) in frames.iter().enumerate() {
+            for (k, (dt, op)) in frames.iter().enumerate() {
                 now += dt;
-                a.dev.rx.push_back(f.clone());
+                match op {
+                    Op::Frame(f) => a.dev.rx.push_back(f.clone()),
+                    Op::Leave(g) => {
+                        let _ = a.iface.leave_multicast_group(group(medium, *g));
+                    }
+                    Op::Join(g) => {
+                        let _ = a.iface.join_multicast_group(group(medium, *g));
+                    }
+                    Op::Budget(n) => a.dev.tx_budget = if *n >= 255 { None } else { Some(*n) },
+                }
                 a.iface.poll(Instant::from_millis(now), &mut a.dev, &mut a.sockets);
                 if let Some(h) = a.dhcp {
                     let _ = a.sockets.get_mut::<dhcpv4::Socket>(h).poll();
@@ -625,7 +714,19 @@ fn run_case(c: &Case) -> Option<(String, String)> {
                 let _ = a.sockets.get_mut::<icmp::Socket>(a.icmp).recv_slice(&mut tmp);
             }
             // trailing probe: a fresh, well-behaved peer (address 9, a real stack) pings the target;
-            // frames are exchanged both ways for up to 5 virtual seconds
+            // frames are exchanged both ways for up to 5 virtual seconds (the device accepts frames again)
+            // and first works off what queued up behind the back-pressure: a router advertisement processed in the
+            // same poll as the probe's ARP exchange would flush the neighbour cache again (update_ip_addrs) and
+            // the single echo request would go unanswered for a reason that is not a wedge)
+            a.dev.tx_budget = None;
+            for _ in 0..8 {
+                if a.dev.rx.is_empty() {
+                    break;
+                }
+                now += 10;
+                a.iface.poll(Instant::from_millis(now), &mut a.dev, &mut a.sockets);
+                a.dev.drain_tx();
+            }
             let mut p = mk_node(a.medium, 9, 99);
             {
                 let s = p.sockets.get_mut::<icmp::Socket>(p.icmp);
@@ -777,7 +878,12 @@ fn main() {
                         let ops = (0..len)
                             .map(|_| {
                                 let dt = *rng.pick(&[0i64, 0, 1, 10, 200, 1000, 3000, 61000]);
-                                format!("f {} {}", dt, hex(&mutate(&mut rng, &seeds[mi], mtu_of(m))))
+                                match rng.below(16) {
+                                    0 => format!("l {} {}", dt, rng.below(3)),
+                                    1 => format!("j {} {}", dt, rng.below(3)),
+                                    2 => format!("b {} {}", dt, *rng.pick(&[0u32, 0, 1, 1, 2, 255, 255])),
+                                    _ => format!("f {} {}", dt, hex(&mutate(&mut rng, &seeds[mi], mtu_of(m)))),
+                                }
                             })
                             .collect();
                         Case { id: format!("z{}-{}", seed, i), cfg: vec![("medium".into(), medium_name(m).into())], ops }
